@@ -252,3 +252,127 @@ def rule_F2(ctx, prog, label, rule='F2'):
                               '%s allocates %s with %s = `%r` but demands `%s` of a supplied destination' % (f.name, P, dim, val, ', '.join(repr(v) for _o, v in cands) or 'nothing'), {}, label))
     rr.require_floor(16, 'destination dimensions')
     return rr
+
+
+# ====================================================================== F4 / F8
+
+SWAPPERS = {'mzd_row_swap', '_mzd_row_swap', 'mzd_col_swap_in_rows', 'mzd_col_swap'}
+
+
+def perm_loops(f):
+    """loops of f whose body applies one swap per iteration taken from a permutation: returns
+    [(loop, direction, lo Lin, hi-exclusive Lin, swap node)]"""
+    fs = FuncSym(f)
+    out = []
+    for lp in f.body.find('ForStmt'):
+        body = lp.kids[4]
+        sw = None
+        for c in body.find('CallExpr'):
+            if callee_name(c) in SWAPPERS and any(x.kind == 'MemberExpr' and x.name == 'values' for x in c.walk()):
+                sw = c
+        if sw is None:
+            # inline swap of a local permutation array through P->values[...]
+            asg = [n for n in body.walk() if n.kind == 'BinaryOperator' and n.op == '=' and any(x.kind == 'MemberExpr' and x.name == 'values' for x in n.walk())]
+            if len(asg) >= 2:
+                sw = asg[0]
+        if sw is None:
+            continue
+        # innermost loop only
+        if any(l2 is not lp and any(x is sw for x in l2.walk()) for l2 in body.find('ForStmt')):
+            continue
+        iv = fs._induction(lp)
+        if iv is None:
+            out.append((lp, None, None, None, sw, fs))
+            continue
+        vid, lo, hi, step = iv
+        # effective direction = loop direction x sign of the loop variable in the index of P->values[...]
+        sign = 1
+        for x in sw.walk():
+            if x.kind == 'ArraySubscriptExpr':
+                b = strip(x.kids[0], casts=True)
+                if b.kind == 'MemberExpr' and b.name == 'values':
+                    idx = fs.sym(x.kids[1])
+                    k = idx.t.get(fs.decl[vid].name)
+                    if k is not None and k < 0:
+                        sign = -1
+                    break
+        out.append((lp, '+' if step * sign > 0 else '-', lo, hi, sw, fs))
+    return out
+
+
+def rule_F4(ctx, prog, label, rule='F4'):
+    """LAPACK order of the permutation applications: sign of d(swap index)/d(iteration) and the top of the index
+    range are as frozen from the documentation (left: ascending, left-trans: descending, right: descending,
+    right-trans: ascending, tri: ascending over all columns with the row range capped by the swap index)."""
+    rr = RuleResult(rule, 'permutation applications run over the full index range in the documented (LAPACK) direction')
+    T = table()['perm_loops']
+    for name, want in sorted(T.items()):
+        f = prog.func(name)
+        loops = perm_loops(f)
+        specs = want if isinstance(want, list) else [want]
+        if len(loops) < len(specs):
+            raise AnalysisBroken('F4: %s has %d permutation loops, %d expected' % (name, len(loops), len(specs)))
+        for spec, (lp, d, lo, hi, sw, fs) in zip(specs, loops):
+            rr.instances += 1
+            top = repr(hi) if hi is not None else None
+            ok = d == spec['dir'] and top == spec['top']
+            why = 'direction %s, index range up to %s' % (d, top)
+            if ok and spec.get('row_cap'):
+                # tri variant: the stop row passed to the swap is capped by the swap index
+                args = [pp(strip(a, casts=True)) for a in sw.kids[1:]]
+                iv = fs._induction(lp)
+                iname = fs.decl[iv[0]].name
+                capped = any(('? ' in a or 'min' in a.lower()) and iname in a for a in args[-1:])
+                if not capped:
+                    ok, why = False, 'the stop row `%s` of the triangular variant is not capped by the swap index' % args[-1]
+            rr.ob(ok, dict(function=name, direction=d, top=top),
+                  Finding(rule, '%s|%s|%s' % (rule, name, spec['dir']), lp.loc, name,
+                          '%s: permutation loop has %s; documented: direction %s over the index range up to %s' % (name, why, spec['dir'], spec['top']), {}, label))
+    return rr
+
+
+def rule_F8(ctx, prog, label, rule='F8'):
+    """Index loops over a permutation window created in the same function stay inside that window:
+    `for (i = a; i < hi; ++i) W->values[i] ...` with W = mzp_init_window(P, lo, hi') requires hi == hi' - lo."""
+    rr = RuleResult(rule, 'loops that update the entries of a permutation window run exactly over that window')
+    for f in sorted(prog.all_funcs(), key=lambda f: (f.file, f.line)):
+        wins = {}
+        fs = None
+        for n in f.body.walk():
+            if n.kind == 'VarDecl' and n.kids:
+                c = strip(n.kids[-1], casts=True)
+                if c is not None and c.kind == 'CallExpr' and callee_name(c) == 'mzp_init_window':
+                    wins[n.id] = (n, c)
+        if not wins:
+            continue
+        fs = FuncSym(f)
+        for lp in f.body.find('ForStmt'):
+            iv = fs._induction(lp)
+            if iv is None:
+                continue
+            vid, lo, hi, step = iv
+            for n in lp.kids[4].walk():
+                lhs = None
+                if n.kind in ('CompoundAssignOperator',) or (n.kind == 'BinaryOperator' and n.op == '='):
+                    lhs = strip(n.kids[0], casts=True)
+                if lhs is None or lhs.kind != 'ArraySubscriptExpr':
+                    continue
+                b = strip(lhs.kids[0], casts=True)
+                if not (b.kind == 'MemberExpr' and b.name == 'values'):
+                    continue
+                w = strip(b.kids[0], casts=True)
+                if not (w.kind == 'DeclRefExpr' and w.refid in wins):
+                    continue
+                idx = strip(lhs.kids[1], casts=True)
+                if not (idx.kind == 'DeclRefExpr' and idx.refid == vid):
+                    continue
+                decl, call = wins[w.refid]
+                length = fs.sym(call.kids[3]) - fs.sym(call.kids[2])
+                rr.instances += 1
+                ok = step > 0 and (hi == length or (hi - length).is_const() and (hi - length).c <= 0)
+                rr.ob(ok, dict(function=f.name, window=decl.name, window_length=repr(length), loop_bound=repr(hi)),
+                      Finding(rule, '%s|%s|%s' % (rule, f.name, decl.name), lp.loc, f.name,
+                              'loop over `%s->values[%s]` runs to `%r` but the window `%s = %s` has length `%r`: entries outside the window are rewritten' % (
+                                  decl.name, fs.decl[vid].name, hi, decl.name, pp(call)[:50], length), {}, label))
+    rr.require_floor(1, 'permutation window update loops')
+    return rr
